@@ -1414,6 +1414,128 @@ pub fn do_bad_join(w: &mut World, variant: u64, q: usize, g: usize) -> VResult<b
             w.ev(format!("bad-join P{q} g{g} variant 1 refused"));
             Ok(true)
         }
+        3 | 4 => {
+            // the genuine Welcome (3) or the out-of-band tree that goes with it (4) with one bit flipped
+            let Some((cid, wb, oob)) = w.mem(q, g).welcome.clone() else {
+                return Ok(false);
+            };
+            let mut r = crate::prng::Prng::new(crate::prng::mix(&[w.seed, w.step_no as u64, 0xf11b]));
+            let tree_ext = w.msgs[&cid].spec.as_ref().map(|s| s.ratchet_tree_ext).unwrap_or(true);
+            let (wb2, tree2, must_reject, what) = if variant == 4 {
+                let Some(t) = oob.clone() else { return Ok(false) };
+                if tree_ext || t.is_empty() {
+                    return Ok(false);
+                }
+                let mut t2 = t.clone();
+                let i = r.usize_below(t2.len());
+                t2[i] ^= 1 << r.below(8);
+                (wb.clone(), Some(t2), true, format!("tree byte {i}"))
+            } else {
+                // Welcome layout: version, wire format, cipher suite, secrets<V> { (key package ref<V>, kem output<V>,
+                // ciphertext<V>)* }, encrypted_group_info<V>
+                let mut rd = crate::refmls::Rd::new(&wb);
+                let layout = (|| -> Option<(usize, usize, Vec<(usize, usize, Vec<u8>)>, usize, usize)> {
+                    rd.u16().ok()?;
+                    rd.u16().ok()?;
+                    rd.u16().ok()?;
+                    let header_end = rd.pos;
+                    let secrets = rd.vec().ok()?;
+                    let secrets_end = rd.pos;
+                    let secrets_start = secrets_end - secrets.len();
+                    let mut sr = crate::refmls::Rd::new(secrets);
+                    let mut entries = vec![];
+                    while sr.left() > 0 {
+                        let a = sr.pos;
+                        let kref = sr.vec().ok()?.to_vec();
+                        sr.vec().ok()?;
+                        sr.vec().ok()?;
+                        entries.push((secrets_start + a, secrets_start + sr.pos, kref));
+                    }
+                    let egi = rd.vec().ok()?;
+                    let egi_end = rd.pos;
+                    Some((header_end, secrets_end, entries, egi_end - egi.len(), egi_end))
+                })();
+                let Some((header_end, _secrets_end, entries, egi_start, egi_end)) = layout else { return Ok(false) };
+                let own: Vec<(usize, usize)> = entries
+                    .iter()
+                    .filter(|(_, _, kref)| w.kp_owner.get(kref).map(|(o, _)| *o == q).unwrap_or(false))
+                    .map(|(a, b, _)| (*a, *b))
+                    .collect();
+                let region = r.below(4);
+                let i = match region {
+                    0 => r.usize_below(header_end),
+                    1 if !own.is_empty() => own[0].0 + r.usize_below(own[0].1 - own[0].0),
+                    2 if egi_end > egi_start => egi_start + r.usize_below(egi_end - egi_start),
+                    _ => r.usize_below(wb.len()),
+                };
+                let mut wb2 = wb.clone();
+                wb2[i] ^= 1 << r.below(8);
+                let checkable = i < header_end || own.iter().any(|(a, b)| *a <= i && i < *b) || (egi_start <= i && i < egi_end);
+                (wb2, oob.clone(), checkable, format!("welcome byte {i}"))
+            };
+            let r2 = guarded(&prop, "join_group(modified welcome / tree)", || {
+                let wm = MlsMessage::from_bytes(&wb2)?;
+                let t = match &tree2 {
+                    Some(t) => Some(mls_rs::group::ExportedTree::from_bytes(t)?),
+                    None => None,
+                };
+                client.join_group(t, &wm, Some(now))
+            })?;
+            w.stats.fault(if variant == 4 { "J-FLIP-TREE" } else { "J-FLIP-WELCOME" });
+            if r2.is_ok() && must_reject {
+                return Err(Violation::new(
+                    &prop,
+                    "modified-join-refused",
+                    format!("joined-with-modified-{}", if variant == 4 { "tree" } else { "welcome" }),
+                    format!("P{q} obtained a group from the Welcome of commit {cid} although {what} had been changed"),
+                ));
+            }
+            if r2.is_ok() {
+                w.stats.probe("welcome-flip-outside-own-entry-not-noticed");
+            }
+            w.ev(format!("bad-join P{q} g{g} variant {variant} ({what}) {}", if r2.is_ok() { "accepted (not checkable for this joiner)" } else { "refused" }));
+            Ok(true)
+        }
+        5 => {
+            // a current GroupInfo with one bit flipped, offered to the external-commit builder
+            let status = w.mem(q, g).status.clone();
+            if !matches!(status, Status::Never | Status::Removed) {
+                return Ok(false);
+            }
+            let latest = w.groups[g].log.len() as u64;
+            let Some(src) = w.live_members(g).into_iter().find(|m| w.epoch_of(*m, g) == Some(latest)) else {
+                return Ok(false);
+            };
+            let (gi, tree) = {
+                let grp = w.parties[src].mems[g].group.as_ref().unwrap();
+                match grp.group_info_message_allowing_ext_commit(true) {
+                    Ok(m) => (m.to_bytes().unwrap_or_default(), grp.export_tree().to_bytes().unwrap_or_default()),
+                    Err(_) => return Ok(false),
+                }
+            };
+            if gi.is_empty() {
+                return Ok(false);
+            }
+            let mut r = crate::prng::Prng::new(crate::prng::mix(&[w.seed, w.step_no as u64, 0xf11c]));
+            let mut gi2 = gi.clone();
+            let i = r.usize_below(gi2.len());
+            gi2[i] ^= 1 << r.below(8);
+            let _ = tree;
+            let r2 = guarded(&prop, "external_commit(modified group info)", || {
+                client.external_commit_builder()?.commit_time(now).build(MlsMessage::from_bytes(&gi2)?)
+            })?;
+            w.stats.fault("J-FLIP-GROUP-INFO");
+            if r2.is_ok() {
+                return Err(Violation::new(
+                    &prop,
+                    "modified-join-refused",
+                    "external-join-with-modified-group-info".into(),
+                    format!("P{q} built an external commit from a GroupInfo of P{src} in which byte {i} had been changed"),
+                ));
+            }
+            w.ev(format!("bad-join P{q} g{g} variant 5 (group info byte {i}) refused"));
+            Ok(true)
+        }
         _ => {
             // a stale GroupInfo (from a member that is behind) with the current tree
             let status = w.mem(q, g).status.clone();
